@@ -503,3 +503,23 @@ func TouchCopy[T any](dst, src []T) {
 		Touch(&dst[k], "elem", true)
 	}
 }
+
+// MapKeys returns the keys of m in a deterministic order (sorted by their printed
+// form). Under an active scheduler a map with more than one key may also be
+// visited in the reverse order: that is one deviation. This replaces the random
+// iteration order of `range m` in rewritten code.
+func MapKeys[K comparable, V any](m map[K]V) []K {
+	keys := make([]K, 0, len(m))
+	for k := range m {
+		keys = append(keys, k)
+	}
+	sort.Slice(keys, func(i, j int) bool { return fmt.Sprint(keys[i]) < fmt.Sprint(keys[j]) })
+	if s := sched(); s != nil && len(keys) > 1 && !s.opt.Sequential {
+		if s.x.ChooseCost(2, 1) == 1 {
+			for i, j := 0, len(keys)-1; i < j; i, j = i+1, j-1 {
+				keys[i], keys[j] = keys[j], keys[i]
+			}
+		}
+	}
+	return keys
+}
